@@ -1,9 +1,10 @@
 ----------------------------- MODULE MC_Layout -----------------------------
 (* C13: the layout edits as a transition system.
 
-   Mode "mc"  : Init picks a document from Universe - every offside-consistent document of
-                <= MaxLines lines, indents 0..MaxIndent, at most MaxNonCode lines that are not code -
-                and a Colang version; Next applies one enabled edit (scripts in canonical order,
+   Mode "mc"  : the universe - every offside-consistent document of <= MaxLines lines, indents
+                0..MaxIndent, at most MaxNonCode lines that are not code - is built line by line
+                (Build), a complete document becomes the original (Freeze), for both Colang versions;
+                Edit applies one enabled edit (scripts in canonical order,
                 <= MaxEdits).  Invariants: BlocksPreserved, StringsSafe (the design argument).
    Mode "emit": Init picks one of the documents of DOCS_FILE - the abstractions (indent, class, endin
                 per line, ids = real line numbers) of REAL corpus files or windows of them, each with
@@ -44,24 +45,34 @@ Ext(p) ==
                   \cup {add(Mk(n, ind, "comment", FALSE, FALSE), p.stack, p.nc + 1, p.hascode) : ind \in {0, top, top + 1}}
                 ELSE {})
 
-RECURSIVE Partial(_)
-Partial(n) == IF n = 0 THEN {P0} ELSE UNION {Ext(p) : p \in Partial(n - 1)}
-Universe == UNION {{p.lines : p \in {q \in Partial(n) : ~q.instr /\ ~q.open /\ q.hascode}} : n \in 1..MaxLines}
+Complete(p) == ~p.instr /\ ~p.open /\ p.hascode
 
 (* ---------------- real abstractions (mode "emit") ---------------- *)
 Docs == IF Mode = "emit" THEN JsonDeserialize(IOEnv.DOCS_FILE) ELSE <<>>
 
-VARIABLES d, ver, endid, maxe, orig, doc, script
-vars == <<d, ver, endid, maxe, orig, doc, script>>
+VARIABLES phase, part, d, ver, endid, maxe, orig, doc, script
+vars == <<phase, part, d, ver, endid, maxe, orig, doc, script>>
 
+(* mode "mc" builds the universe as part of the state space: phase "build" appends one line at a time
+   (every extension Ext allows), Freeze turns a complete document into the original of an edit phase *)
 Init ==
-  /\ script = <<>>
-  /\ \/ /\ Mode = "mc" /\ d = 0 /\ maxe = MaxEdits
-        /\ orig \in Universe /\ ver \in {"1.0", "2.x"}
-        /\ endid = Len(orig) + 1
-     \/ /\ Mode = "emit" /\ d \in 1..Len(Docs)
+  /\ script = <<>> /\ part = P0
+  /\ \/ /\ Mode = "mc" /\ phase = "build" /\ d = 0 /\ maxe = MaxEdits
+        /\ orig = <<>> /\ ver \in {"1.0", "2.x"} /\ endid = 0
+     \/ /\ Mode = "emit" /\ phase = "edit" /\ d \in 1..Len(Docs)
         /\ orig = Docs[d].lines /\ ver = Docs[d].ver /\ endid = Docs[d].endid /\ maxe = Docs[d].maxe
   /\ doc = orig
+
+Build ==
+  /\ phase = "build" /\ Len(part.lines) < MaxLines
+  /\ part' \in Ext(part)
+  /\ UNCHANGED <<phase, d, ver, endid, maxe, orig, doc, script>>
+
+Freeze ==
+  /\ phase = "build" /\ Complete(part)
+  /\ phase' = "edit" /\ orig' = part.lines /\ doc' = part.lines /\ endid' = Len(part.lines) + 1
+  /\ part' = P0
+  /\ UNCHANGED <<d, ver, maxe, script>>
 
 (* canonical order of the edits of a script (positions refer to original lines, so edits commute) *)
 Rank(op) == CASE op = "blank" -> 1 [] op = "tws" -> 2 [] op = "twstab" -> 3 [] op = "eol" -> 4 [] op = "scale" -> 5
@@ -82,7 +93,8 @@ Candidates ==
   \cup UNION {{[op |-> "eol", id |-> i, k |-> k] : k \in EolKs(i)} : i \in Ids}
   \cup {[op |-> "scale", id |-> 0, k |-> k] : k \in {2, 3}}
 
-Next ==
+Edit ==
+  /\ phase = "edit"
   /\ Len(script) < maxe
   /\ \E e \in Candidates :
        /\ EditEnabled(doc, e, ver, endid)
@@ -93,25 +105,27 @@ Next ==
                                 /\ ~(l.op = e.op /\ l.id = e.id /\ e.op \in {"eol", "twstab"})
        /\ doc' = ApplyEdit(doc, e, endid)
        /\ script' = Append(script, e)
-  /\ UNCHANGED <<d, ver, endid, maxe, orig>>
+  /\ UNCHANGED <<phase, part, d, ver, endid, maxe, orig>>
 
+Next == Build \/ Freeze \/ Edit
 Spec == Init /\ [][Next]_vars
 
 (* ---------------- the design argument ---------------- *)
 BlocksPreserved == SameBlocks(orig, doc)
 StringsSafe     == StringsUntouched(orig, doc)
 (* in the abstract universe every document is offside-consistent and stays so *)
-StaysConsistent == Mode = "mc" => Consistent(doc)
+StaysConsistent == Mode = "mc" => Consistent(doc) /\ Consistent(part.lines)
 
 EmitLine == Mode = "emit" /\ Len(script) > 0 => PrintT(ToJson([d |-> d, s |-> script]))
 
 (* negative control (run with expect_fail): an edit that is NOT layout - re-indenting one code line -
    must break BlocksPreserved, otherwise the invariant would be vacuous *)
-BadNext ==
+BadEdit ==
+  /\ phase = "edit"
   /\ Len(script) < 1
   /\ \E i \in 1..Len(doc) : /\ doc[i].class = "code"
                             /\ doc' = [doc EXCEPT ![i].indent = @ + 1]
                             /\ script' = Append(script, [op |-> "reindent", id |-> doc[i].id, k |-> 1])
-  /\ UNCHANGED <<d, ver, endid, maxe, orig>>
-BadSpec == Init /\ [][BadNext]_vars
+  /\ UNCHANGED <<phase, part, d, ver, endid, maxe, orig>>
+BadSpec == Init /\ [][Build \/ Freeze \/ BadEdit]_vars
 =============================================================================
